@@ -605,7 +605,7 @@ func FindInstrs(fn *ssa.Function, pred func(ssa.Instruction) bool) []ssa.Instruc
 			out = append(out, in)
 		}
 	})
-	if (len(out) == 0 || DeepAlways) && DeepFind > 0 && fn != nil && fn.Parent() == nil {
+	if (len(out) == 0 || DeepAlways) && DeepFind > 0 && fn != nil {
 		for _, m := range Family(fn, DeepFind) {
 			if m == fn || m.Parent() != nil {
 				continue
